@@ -18,12 +18,15 @@ Values (hashable tuples):
   ("c", closure-path, (captures...))                     closure value
   ("it", (stage, ...))                                   iterator pipeline; stage = ("map", closure value) | ("src",)
   ("d", adt, variant-or-None)                            discriminant read
+  ("e", "(collection)", "Empty" | "NonEmpty", ())        what `collect()` made (only emptiness is kept)
 """
 from .facts import callee, op_place
 
 U = ("u",)
 T = ("b", True)
 Fv = ("b", False)
+SKIP = ("skip",)                 # an element a filter stage dropped (pipelines only)
+COLLECTION = "(collection)"      # what `collect` leaves: ("e", COLLECTION, "Empty" | "NonEmpty", ())
 
 
 SINKS = ("core::fmt::", "alloc::fmt::", "std::io::", "std::fmt::", "<std::io::", "core::panicking::", "std::panicking::")
@@ -714,6 +717,13 @@ class Sim:
             if short in ("into_iter", "iter", "by_ref", "rev", "peekable", "fuse", "copied", "cloned", "iter_mut"):
                 return one(self._deref(v, fr, fn))
             return one(v)
+        if short == "is_empty" and A and A[0][0] == "e" and A[0][1] == COLLECTION:
+            return one(T if A[0][2] == "Empty" else Fv if A[0][2] == "NonEmpty" else U)
+        if short == "len" and A and A[0][0] == "e" and A[0][1] == COLLECTION:
+            if A[0][2] == "Empty":
+                return one(("i", 0))
+            self.lossy.append((fn.name, b, c))      # how many were kept is not tracked
+            return one(U)
         # ---- bool operators through references
         if "::BitAnd" in c and short == "bitand":
             return one(b3_and(A[0], A[1]))
@@ -739,16 +749,47 @@ class Sim:
                          "enumerate", "zip"):
                 if short in ("inspect",):
                     return one(it)
+                if short == "filter" and len(args) > 1 and args[1][0] == "c":
+                    return one(("it", it[1] + (("filter", args[1], self._snapshot(args[1], fr, fn)),)))
                 return one(("it", it[1] + ((short,),)))
             if short == "next":
-                # pull one element: Some(elem) or None
-                outs = [(fd, enum(OPTION, "None"), fr)]
-                el = self._pull(it, fr, fd, depth, fn)
-                if el is None:
-                    return None
-                for nfd, v in el:
-                    outs.append((nfd, enum(OPTION, "Some", v), fr))
-                return outs
+                # pull one element: Some(elem) or None; an element a filter drops means pulling again
+                outs = set()
+                states, seen = {fd}, set()
+                while states:
+                    f1 = states.pop()
+                    if f1 in seen:
+                        continue
+                    seen.add(f1)
+                    outs.add((f1, enum(OPTION, "None")))
+                    el = self._pull(it, fr, f1, depth, fn)
+                    if el is None:
+                        return None
+                    for nfd, v in el:
+                        if v == SKIP:
+                            states.add(nfd)
+                        else:
+                            outs.add((nfd, enum(OPTION, "Some", v)))
+                return [(f1, v, fr) for f1, v in outs]
+            if short in ("collect", "count") and len(args) == 1:
+                # what is kept of a collection: whether anything went into it
+                done = set()
+                states, seen = {(fd, False)}, set()
+                while states:
+                    st_ = states.pop()
+                    if st_ in seen:
+                        continue
+                    seen.add(st_)
+                    f1, some = st_
+                    done.add((f1, ("e", COLLECTION, "NonEmpty" if some else "Empty", ())))
+                    el = self._pull(it, fr, f1, depth, fn)
+                    if el is None:
+                        return None
+                    for nfd, v in el:
+                        states.add((nfd, some if v == SKIP else True))
+                if short == "count":
+                    return [(f1, ("i", 0) if v[2] == "Empty" else U, fr) for f1, v in done]
+                return [(f1, v, fr) for f1, v in done]
             if short in ("fold", "all", "any", "for_each", "try_fold"):
                 return self._consume(short, it, args, A, fr, fd, depth, fn)
             return None
@@ -776,10 +817,29 @@ class Sim:
                 clo2 = ("c", clo[1], st[2])
                 nxt = set()
                 for f1, v in cur:
+                    if v == SKIP:
+                        nxt.add((f1, v))
+                        continue
                     res = self.apply_closure(clo2, [v], fr, f1, depth, fn)
                     if res is None:
                         return None
                     nxt |= set(res)
+                cur = nxt
+            elif st[0] == "filter" and len(st) == 3:
+                clo2 = ("c", st[1][1], st[2])
+                nxt = set()
+                for f1, v in cur:
+                    if v == SKIP:
+                        nxt.add((f1, v))
+                        continue
+                    res = self.apply_closure(clo2, [v], fr, f1, depth, fn)
+                    if res is None:
+                        return None
+                    for f2, keep in res:
+                        if keep != Fv:
+                            nxt.add((f2, v))
+                        if keep != T:
+                            nxt.add((f2, SKIP))
                 cur = nxt
             else:
                 # a stage that can drop or reshape elements
@@ -810,6 +870,9 @@ class Sim:
                 if el is None:
                     return None
                 for f2, v in el:
+                    if v == SKIP:
+                        states.add((f2, acc))
+                        continue
                     res = self.apply_closure(f, [acc, v], fr, f2, depth, fn)
                     if res is None:
                         return None
@@ -831,6 +894,9 @@ class Sim:
                 if el is None:
                     return None
                 for f2, v in el:
+                    if v == SKIP:
+                        states.add(f2)
+                        continue
                     res = self.apply_closure(f, [v], fr, f2, depth, fn)
                     if res is None:
                         return None
